@@ -28,7 +28,7 @@ META = {
     "assumptions": ["drain waiters of one writer are released FIFO (asyncio wakes them in order); other gates in any order",
                     "a send refused with FIXConnectionError is a legal outcome for a sender (it must consume nothing)"],
 }
-REQUIRED_ORACLES = ["wire-order", "journal-row", "stored-counter", "no-duplicate-error", "all-tasks-finish"]
+REQUIRED_ORACLES = ["wire-order", "journal-row", "stored-counter", "no-duplicate-error", "all-tasks-finish", "gapfill-coverage"]
 NSHARDS = 16
 SCEN = ["S1", "S1b", "S2", "S2b", "S2c", "S3", "S3b", "S4", "S5", "S6", "S7"]
 DEPTH = {"quick": 7, "thorough": 11}
@@ -237,7 +237,7 @@ async def run_schedule(name, clock, choices, rnd=None, max_decisions=80):
         unfinished = [i for i, t in enumerate(tasks) if not t.done()]
         frames = ep.vf_tap.frames(tap0)
         obs = {
-            "frames": frames, "marks": marks[tap0:], "results": results, "unfinished": unfinished, "first_new": first_new,
+            "frames": frames, "all_frames": ep.vf_tap.frames(), "marks": marks[tap0:], "results": results, "unfinished": unfinished, "first_new": first_new,
             "live": ep._session.next_num_out, "stored": j.create_or_load("PEER", "ME").next_num_out,
             "rows": {}, "state": ep.connection_state.name, "swallowed": list(ep.vf_log.exceptions), "overlap": overlap,
             "reader_dead": E.task_failure(ep),
@@ -301,6 +301,27 @@ def judge(acc, name, trace, obs, cid):
         seen_new.setdefault(n, fb)
         nxt = max(nxt, n + 1)
         highest = max(highest, n)
+    # a gap fill tells the peer to skip numbers for good: it must never cover an application message the replay filter accepts
+    acc.oracle("gapfill-coverage")
+    apps = {}
+    for fb in obs.get("all_frames", obs["frames"]):
+        try:
+            f = fixwire.parse(fb)
+        except fixwire.FrameError:
+            continue
+        if fixwire.get(f, 35) == "D" and fixwire.get(f, 43) != "Y" and not str(fixwire.get(f, 11, "")).startswith("n"):
+            apps[int(fixwire.get(f, 34))] = fixwire.get(f, 11)
+    for fb in obs["frames"]:
+        try:
+            f = fixwire.parse(fb)
+        except fixwire.FrameError:
+            continue
+        if fixwire.get(f, 35) == "4" and fixwire.get(f, 123) == "Y":
+            lo, hi = int(fixwire.get(f, 34)), int(fixwire.get(f, 36))
+            hit = [(n, apps[n]) for n in range(lo, min(hi, lo + 50)) if n in apps]
+            if hit:
+                V("gapfill-covers-application-message", f"gap fill {lo}->{hi} tells the peer to skip application message(s) {hit}")
+                break
     acc.oracle("no-duplicate-error")
     for i, res in obs["results"].items():
         for a, r in res:
